@@ -231,6 +231,65 @@ func registerStatic(e *Engine) {
 		}
 		return VSlice{Obj: p.newObj(&VArray{E: out}, "structinit"), Len: len(out), Cap: len(out)}
 	}
+	// InitGenesisOrder: the constant string list passed to ModuleManager.SetOrderInitGenesis in
+	// app.NewApp (a slice literal of module-name constants), in order.
+	in[rtwPkgPath+".InitGenesisOrder"] = func(p *Path, a []Value) Value {
+		fn := p.eng.findFuncByName(modPath + "/app.NewApp")
+		if fn == nil {
+			panic(engErr("app.NewApp not found (package app not loaded?)"))
+		}
+		p.hr.noteFunc(fn)
+		for _, b := range fn.Blocks {
+			for _, ins := range b.Instrs {
+				c, ok := ins.(*ssa.Call)
+				if !ok {
+					continue
+				}
+				sc := c.Call.StaticCallee()
+				if sc == nil || !strings.HasSuffix(sc.String(), ".SetOrderInitGenesis") {
+					continue
+				}
+				sl, ok := c.Call.Args[len(c.Call.Args)-1].(*ssa.Slice)
+				if !ok {
+					panic(engErr("SetOrderInitGenesis argument is not a slice literal"))
+				}
+				alloc, ok := sl.X.(*ssa.Alloc)
+				if !ok {
+					panic(engErr("SetOrderInitGenesis argument is not a slice literal"))
+				}
+				byIdx := map[int]string{}
+				max := -1
+				for _, b2 := range fn.Blocks {
+					for _, i2 := range b2.Instrs {
+						st, ok := i2.(*ssa.Store)
+						if !ok {
+							continue
+						}
+						ia, ok := st.Addr.(*ssa.IndexAddr)
+						if !ok || ia.X != alloc {
+							continue
+						}
+						ic, ok1 := ia.Index.(*ssa.Const)
+						vc, ok2 := st.Val.(*ssa.Const)
+						if !ok1 || !ok2 || vc.Value == nil || vc.Value.Kind() != constant.String {
+							panic(engErr("genesis order list has a non-constant element"))
+						}
+						k := int(ic.Int64())
+						byIdx[k] = constant.StringVal(vc.Value)
+						if k > max {
+							max = k
+						}
+					}
+				}
+				out := make([]Value, max+1)
+				for i := range out {
+					out[i] = VStr{StrC(byIdx[i])}
+				}
+				return VSlice{Obj: p.newObj(&VArray{E: out}, "genesisorder"), Len: len(out), Cap: len(out)}
+			}
+		}
+		panic(engErr("no SetOrderInitGenesis call in app.NewApp"))
+	}
 	in[rtwPkgPath+".StaticTrace"] = func(p *Path, a []Value) Value {
 		name := cStr(a[0], "function name")
 		fn := p.eng.findFuncByName(name)
